@@ -627,6 +627,30 @@ func CborSpecials(kind int) []Mut {
 	big := append([]byte{0x82, k}, cborHead(4, 200000)...)
 	big = append(big, make([]byte, 200000)...)
 	add("honest-array-200000-zeros", big)
+	// well-shaped nodes of this kind whose link list holds a CID tag with EMPTY content
+	emptyLink := []byte{0xd8, 0x2a, 0x40}
+	links := append([]byte{0x81}, emptyLink...)
+	frame := append([]byte{0x86, 0x06, 0xf6, 0xf6, 0xf6, 0x40}, links...)
+	switch kind {
+	case 0:
+		add("link-with-empty-cid-bytes", append(append(append([]byte{0x85, 0x00}, frame...), frame...), 0x00, 0x00))
+	case 1:
+		add("link-with-empty-cid-bytes", append([]byte{0x84, 0x01, 0x00, 0x40}, links...))
+	case 2:
+		d := append([]byte{0x86, 0x02, 0x00, 0x80}, links...)
+		d = append(d, 0x83, 0x00, 0x00, 0x00)
+		add("link-with-empty-cid-bytes", append(d, emptyLink...))
+		d2 := append([]byte{0x86, 0x02, 0x00, 0x80, 0x80}, 0x83, 0x00, 0x00, 0x00)
+		add("rewards-link-with-empty-cid-bytes", append(d2, emptyLink...))
+	case 3:
+		add("link-with-empty-cid-bytes", append([]byte{0x84, 0x03, 0x00, 0x00}, links...))
+	case 4:
+		add("link-with-empty-cid-bytes", append([]byte{0x83, 0x04, 0x00}, links...))
+	case 5:
+		add("link-with-empty-cid-bytes", append([]byte{0x83, 0x05, 0x00}, frame...))
+	case 6:
+		add("link-with-empty-cid-bytes", frame)
+	}
 	add("empty", nil)
 	add("one-byte-array0", []byte{0x80})
 	add("one-byte", []byte{k})
